@@ -70,6 +70,14 @@ BASE_POOL = [
     # whether "straße" equals "STRASSE": such pairs are judged by the order
     # LAWS only)
     ('text', 'straße'), ('text', 'STRASSE'), ('text', 'ﬁn'), ('text', 'FIN'),
+    # letters on whose case-less form upper(), lower() and casefold() disagree
+    # (dotless i, Kelvin sign, capital sharp s, long s): judged by the LAWS only
+    ('text', '\u0131'), ('text', 'i'), ('text', 'I'), ('text', '\u212a'),
+    ('text', 'k'), ('text', 'K'), ('text', '\u1e9e'), ('text', 'ß'),
+    ('text', 'ss'), ('text', 'SS'), ('text', '\u017f'), ('text', 's'),
+    # long texts: equal up to position 256 / 512, one a prefix of the other
+    ('text', 'x' * 256), ('text', 'x' * 257), ('text', 'X' * 300),
+    ('text', 'x' * 512 + 'y'), ('text', 'x' * 512),
     ('bool', True), ('bool', False), ('blank', None),
     # truth values as numpy hands them out (comparisons of numpy numbers)
     ('npbool', True), ('npbool', False),
@@ -96,7 +104,8 @@ def ref_truth(op, a, b):
 
 
 def expanding(t):
-    return len(t.upper()) != len(t) or len(t.lower()) != len(t)
+    return len(t.upper()) != len(t) or len(t.lower()) != len(t) or any(
+        ch in t for ch in '\u0131\u212a\u1e9e\u017f')
 
 
 def cls(kind):
